@@ -27,6 +27,8 @@ pub enum Ty {
     Hc128,
     Isaac,
     Isaac64,
+    /// `JitterRng` over a scripted timer (not in `Ty::ALL`; built with `jitter_gen`)
+    Jitter,
 }
 
 #[derive(Clone, Copy, PartialEq, Eq, Debug)]
@@ -42,6 +44,7 @@ pub enum Engine {
     Hc128,
     Isaac,
     Isaac64,
+    Jitter,
 }
 
 #[derive(Clone, Copy, PartialEq, Eq, Debug)]
@@ -147,6 +150,7 @@ impl Ty {
             Ty::Hc128 => ("Hc128Rng", 32, 32, E::Hc128, S::None, H::Native, false, true, false, 0, 16),
             Ty::Isaac => ("IsaacRng", 32, 32, E::Isaac, S::None, H::Native, false, false, true, 0, 256),
             Ty::Isaac64 => ("Isaac64Rng", 32, 64, E::Isaac64, S::None, H::LowThenHigh, false, false, true, 0, 256),
+            Ty::Jitter => ("JitterRng", 0, 64, E::Jitter, S::None, H::LowThenHigh, false, false, false, 0, 0),
         };
         Info {
             ty: self,
@@ -169,6 +173,9 @@ impl Ty {
         self.info().name
     }
     pub fn from_name(s: &str) -> Option<Ty> {
+        if s == "JitterRng" {
+            return Some(Ty::Jitter);
+        }
         Ty::ALL.iter().copied().find(|t| t.name() == s)
     }
 }
@@ -190,6 +197,10 @@ pub trait Gen: Send {
     fn debug(&self) -> String;
     fn debug_alt(&self) -> String;
     fn as_any(&self) -> &dyn Any;
+    /// `JitterRng`-only operations
+    fn jitter(&mut self) -> Option<&mut dyn JitterOps> {
+        None
+    }
 
     /// native-width call, widened
     fn next_native(&mut self) -> u64 {
@@ -284,22 +295,22 @@ macro_rules! table {
         )*
 
         pub fn from_seed(ty: Ty, seed: &[u8]) -> Box<dyn Gen> {
-            match ty { $( Ty::$v => Box::new(W(<$T>::from_seed(mk_seed::<$T>(seed)))), )* }
+            match ty { $( Ty::$v => Box::new(W(<$T>::from_seed(mk_seed::<$T>(seed)))), )* Ty::Jitter => panic!("JitterRng is not seedable") }
         }
         pub fn seed_from_u64(ty: Ty, x: u64) -> Box<dyn Gen> {
-            match ty { $( Ty::$v => Box::new(W(<$T>::seed_from_u64(x))), )* }
+            match ty { $( Ty::$v => Box::new(W(<$T>::seed_from_u64(x))), )* Ty::Jitter => panic!("JitterRng is not seedable") }
         }
         pub fn from_rng<R: RngCore>(ty: Ty, src: &mut R) -> Box<dyn Gen> {
-            match ty { $( Ty::$v => Box::new(W(<$T>::from_rng(src))), )* }
+            match ty { $( Ty::$v => Box::new(W(<$T>::from_rng(src))), )* Ty::Jitter => panic!("JitterRng is not seedable") }
         }
         pub fn try_from_rng<R: TryRngCore>(ty: Ty, src: &mut R) -> Result<Box<dyn Gen>, R::Error> {
-            match ty { $( Ty::$v => <$T>::try_from_rng(src).map(|g| Box::new(W(g)) as Box<dyn Gen>), )* }
+            match ty { $( Ty::$v => <$T>::try_from_rng(src).map(|g| Box::new(W(g)) as Box<dyn Gen>), )* Ty::Jitter => panic!("JitterRng is not seedable") }
         }
         pub fn from_bincode(ty: Ty, bytes: &[u8]) -> Result<Box<dyn Gen>, String> {
-            match ty { $( Ty::$v => opt_de_bin!($s, $T, bytes), )* }
+            match ty { $( Ty::$v => opt_de_bin!($s, $T, bytes), )* Ty::Jitter => Err("no serde".into()) }
         }
         pub fn from_json(ty: Ty, text: &str) -> Result<Box<dyn Gen>, String> {
-            match ty { $( Ty::$v => opt_de_json!($s, $T, text), )* }
+            match ty { $( Ty::$v => opt_de_json!($s, $T, text), )* Ty::Jitter => Err("no serde".into()) }
         }
     };
 }
@@ -355,4 +366,135 @@ pub fn observe_state(g: &dyn Gen) -> Option<Vec<u8>> {
 /// `Deserialize` implementation. Only for linear types / SplitMix64.
 pub fn from_state_bytes(ty: Ty, state: &[u8]) -> Option<Box<dyn Gen>> {
     from_bincode(ty, state).ok()
+}
+
+// ---------------------------------------------------------------------------------------------
+// JitterRng over a scripted timer
+
+use crate::refmodel::jitter::TimerErr;
+use crate::timer::{Script, ScriptTimer};
+use rand_jitter::{JitterRng, TimerError};
+
+pub trait JitterOps {
+    fn set_rounds(&mut self, r: u8);
+    fn timer_stats(&mut self, var_rounds: bool) -> i64;
+    fn test_timer(&mut self) -> Result<u8, TimerErr>;
+    /// timer readings consumed so far (shared with clones)
+    fn reads(&self) -> usize;
+    /// hooks (cfg rngs_verif): None when the hook is not compiled in
+    fn pool(&self) -> Option<u64>;
+    fn set_pool(&mut self, v: u64) -> bool;
+    fn stir_once(&mut self) -> bool;
+}
+
+pub struct JitterGen<F> {
+    pub rng: JitterRng<F>,
+    pub timer: ScriptTimer,
+}
+
+pub fn map_timer_error(e: TimerError) -> TimerErr {
+    match e {
+        TimerError::NoTimer => TimerErr::NoTimer,
+        TimerError::CoarseTimer => TimerErr::CoarseTimer,
+        TimerError::NotMonotonic => TimerErr::NotMonotonic,
+        TimerError::TinyVariations => TimerErr::TinyVariations,
+        TimerError::TooManyStuck => TimerErr::TooManyStuck,
+        _ => TimerErr::Other,
+    }
+}
+
+impl<F: Fn() -> u64 + Send + Sync + Clone + 'static> JitterOps for JitterGen<F> {
+    fn set_rounds(&mut self, r: u8) {
+        self.rng.set_rounds(r)
+    }
+    fn timer_stats(&mut self, var_rounds: bool) -> i64 {
+        self.rng.timer_stats(var_rounds)
+    }
+    fn test_timer(&mut self) -> Result<u8, TimerErr> {
+        self.rng.test_timer().map_err(map_timer_error)
+    }
+    fn reads(&self) -> usize {
+        self.timer.reads()
+    }
+    #[cfg(rngs_verif)]
+    fn pool(&self) -> Option<u64> {
+        Some(self.rng.verif_pool())
+    }
+    #[cfg(rngs_verif)]
+    fn set_pool(&mut self, v: u64) -> bool {
+        self.rng.verif_set_pool(v);
+        true
+    }
+    #[cfg(rngs_verif)]
+    fn stir_once(&mut self) -> bool {
+        self.rng.verif_stir_once();
+        true
+    }
+    #[cfg(not(rngs_verif))]
+    fn pool(&self) -> Option<u64> {
+        None
+    }
+    #[cfg(not(rngs_verif))]
+    fn set_pool(&mut self, _v: u64) -> bool {
+        false
+    }
+    #[cfg(not(rngs_verif))]
+    fn stir_once(&mut self) -> bool {
+        false
+    }
+}
+
+impl<F: Fn() -> u64 + Send + Sync + Clone + 'static> Gen for JitterGen<F> {
+    fn ty(&self) -> Ty {
+        Ty::Jitter
+    }
+    fn next_u32(&mut self) -> u32 {
+        self.rng.next_u32()
+    }
+    fn next_u64(&mut self) -> u64 {
+        self.rng.next_u64()
+    }
+    fn fill(&mut self, dest: &mut [u8]) {
+        self.rng.fill_bytes(dest)
+    }
+    fn jump(&mut self) -> bool {
+        false
+    }
+    fn long_jump(&mut self) -> bool {
+        false
+    }
+    fn clone_box(&self) -> Box<dyn Gen> {
+        Box::new(JitterGen { rng: self.rng.clone(), timer: self.timer.clone() })
+    }
+    fn eq_dyn(&self, _other: &dyn Gen) -> Option<bool> {
+        None
+    }
+    fn bincode(&self) -> Option<Vec<u8>> {
+        None
+    }
+    fn json(&self) -> Option<String> {
+        None
+    }
+    fn debug(&self) -> String {
+        format!("{:?}", self.rng)
+    }
+    fn debug_alt(&self) -> String {
+        format!("{:#?}", self.rng)
+    }
+    fn as_any(&self) -> &dyn Any {
+        self
+    }
+    fn jitter(&mut self) -> Option<&mut dyn JitterOps> {
+        Some(self)
+    }
+}
+
+/// `JitterRng::new_with_timer` over a scripted timer; `rounds` = None keeps the default (64).
+pub fn jitter_gen(script: Script, rounds: Option<u8>, budget: usize) -> Box<dyn Gen> {
+    let timer = ScriptTimer::new(script, budget);
+    let mut rng = JitterRng::new_with_timer(timer.closure());
+    if let Some(r) = rounds {
+        rng.set_rounds(r);
+    }
+    Box::new(JitterGen { rng, timer })
 }
